@@ -83,20 +83,35 @@ def generate(ctx, tla, cfg, simulate=None, depth=None, timeout=3000, workers=4):
     return beh
 
 
-def sig_of(e, events=None, k=None):
-    api = e.get("api", "")
-    group = "cli" if api.startswith("cli:") else api.split(".")[0]
-    if e.get("e") == "ret":
-        r = e.get("r")
-        if r == -2:
-            return {"group": group, "outcome": "panic", "loc": e.get("loc", "")}
-        if r == -3:
-            return {"group": group, "outcome": "abort", "loc": e.get("loc", "")}
-        return {"group": group, "api": api, "outcome": "protocol_or_position", "r": r}
-    return {"group": group, "api": api, "outcome": "unanswered_invoke"}
+def generic_loc(loc):
+    """A location that does not identify the call site in /repo: a panic raised inside the
+    standard library (`library/alloc/...: capacity overflow`) or a process death."""
+    return not loc.startswith("src/")
 
 
-def triage_and_validate(ctx, trace_path, anomalies_path, label, selftest):
+def make_sig_of(by_key, shape_of):
+    """Signature of a rejected event: entry-point group + outcome + panic location
+    (`src/jq/parser.rs:216`); when the location is generic, the shape of the input too."""
+    def sig_of(e, events=None, k=None):
+        api = e.get("api", "")
+        group = "cli" if api.startswith("cli:") else api.split(".")[0]
+        if e.get("e") == "ret":
+            r = e.get("r")
+            if r in (-2, -3):
+                sig = {"group": group, "outcome": "panic" if r == -2 else "abort", "loc": e.get("loc", "")}
+                if generic_loc(sig["loc"]):
+                    sig["shape"] = shape_of(api, by_key.get((e.get("id"), api), {}))
+                return sig
+            return {"group": group, "api": api, "outcome": "protocol_or_position", "r": r}
+        return {"group": group, "api": api, "outcome": "unanswered_invoke"}
+    return sig_of
+
+
+def shape_c19(api, anomaly):
+    return api
+
+
+def triage_and_validate(ctx, trace_path, anomalies_path, label, selftest, shape_of=shape_c19):
     """Known findings are suppressed (inv/ret pair removed, KNOWN-FINDING printed); everything
     else goes to TLC: an unlisted crash is rejected by Trace_CallProtocol -> VIOLATION."""
     events = vlib.read_ndjson(trace_path)
@@ -105,6 +120,7 @@ def triage_and_validate(ctx, trace_path, anomalies_path, label, selftest):
     for a in anomalies:
         if a.get("kind") in ("panic", "abort"):
             by_key.setdefault((a["id"], a["api"]), a)
+    sig_of = make_sig_of(by_key, shape_of)
     drop = set()
     for i, e in enumerate(events):
         if e.get("e") == "ret" and e.get("r", 0) < 0:
@@ -128,14 +144,15 @@ def triage_and_validate(ctx, trace_path, anomalies_path, label, selftest):
                 continue
             seen.add(key)
             a = by_key.get((e["id"], e["api"]), {})
-            ctx.report(sig, "%s crashed: %s  input=%r" % (e["api"], a.get("msg", e.get("msg")), a.get("text", "")[:200]),
+            ctx.report(sig, "%s crashed: %s  input=%r" % (e["api"], str(a.get("msg", e.get("msg")))[:300],
+                                                          (a.get("text") or a.get("prog") or "")[:200]),
                        replay_events=[e, a])
     # the first violation's replay file only has the events: add the input
     for v in ctx.violations:
         if v["replay"].endswith(".ndjson"):
             evs = vlib.read_ndjson(v["replay"])
             extra = [by_key[(x["id"], x["api"])] for x in evs if x.get("e") == "ret" and (x.get("id"), x.get("api")) in by_key]
-            if extra and not any("hex" in x for x in evs):
+            if extra and not any("hex" in x or "prog" in x for x in evs):
                 vlib.write_ndjson(v["replay"], evs + extra)
     return n, len(drop) // 2
 
@@ -151,7 +168,7 @@ def run(ctx):
     inputs += generate(ctx, "TokenSoup.tla", "TokenSoup_json4.cfg" if q else "TokenSoup_json5.cfg")
     inputs += generate(ctx, "TokenSoup.tla", "TokenSoup_jq2.cfg" if q else "TokenSoup_jq3.cfg")
     inputs += generate(ctx, "Mutation.tla", "Mutation_d1.cfg")
-    inputs += generate(ctx, "Mutation.tla", "Mutation_d2small.cfg")
+    inputs += generate(ctx, "Mutation.tla", "Mutation_d2tiny.cfg" if q else "Mutation_d2small.cfg")
     if not q:
         inputs += generate(ctx, "Mutation.tla", "Mutation_d2mid.cfg")
     nsim = 500 if q else 8000
@@ -169,7 +186,7 @@ def run(ctx):
     # ---------------- spec -> impl: replay in a supervised worker
     b = vlib.harness_bin("c19")
     tp, ap = ctx.path("trace-lib.ndjson"), ctx.path("anomalies-lib.ndjson")
-    rc, out, wall = vlib.sh([b, "replay", ip, tp, "anomalies=" + ap, "cap=%d" % (120000 if q else 400000),
+    rc, out, wall = vlib.sh([b, "replay", ip, tp, "anomalies=" + ap, "cap=%d" % (50000 if q else 300000),
                              "threads=4", "seed=%d" % ctx.seed], timeout=6000)
     st = json.loads(out.strip().splitlines()[-1])
     per_api = st.pop("per_api")
@@ -183,7 +200,7 @@ def run(ctx):
     # ---------------- the CLI
     cli = vlib.cli_bin()
     tc, ac = ctx.path("trace-cli.ndjson"), ctx.path("anomalies-cli.ndjson")
-    rc, out, wall = vlib.sh([b, "cli", ip, tc, "cli=" + cli, "anomalies=" + ac, "max=%d" % (90 if q else 1500),
+    rc, out, wall = vlib.sh([b, "cli", ip, tc, "cli=" + cli, "anomalies=" + ac, "max=%d" % (150 if q else 1200), "cmds=%d" % (6 if q else 8),
                              "seed=%d" % ctx.seed, "tmp=" + ctx.work], timeout=6000)
     sc = json.loads(out.strip().splitlines()[-1])
     per_cmd = sc.pop("per_cmd")
